@@ -203,6 +203,12 @@ class ProcessSnapshot(Stream):
     def generate(self, rng):
         spec = PG.gen_spec(rng, behaviours=True, allow_pyproject=rng.random() < 0.15)
         pk = rng.choice(["dir", "tar.gz", "zip"])
+        if rng.random() < 0.05:
+            spec["style"] = "pyproject"
+        if spec["style"] == "pyproject" and rng.random() < 0.6:
+            # another back-end than setuptools: one that edits sys.argv in place, prints and tidies nothing up
+            spec["backend"] = "rv-inplace"
+            pk = "dir"
         if pk == "dir" and spec["style"] != "pyproject" and rng.random() < 0.12:
             # the project holds an absolute link into itself and its script, which cannot be analysed in-process, writes
             # through it when it is really run (in the scratch copy)
@@ -350,6 +356,8 @@ class ProcessSnapshot(Stream):
             fl.append("stdin-None")
         if spec.get("abs_symlink"):
             fl.append("absolute-link-into-the-project")
+        if spec.get("backend"):
+            fl.append("pep517-backend-edits-argv-in-place")
         if r.get("cwd_litter"):
             fl.append("script-litters-cwd")
         return fl
